@@ -53,7 +53,7 @@ pub fn spec(id: &str) -> Option<Spec> {
         "C01" => Spec {
             id: "C01",
             level: "exploration",
-            rule: "seeded histories of add/complete/pop on VirtQueue (size, indirect, event-idx, access-platform, legacy layout, device policy drawn per run); distinct = distinct event-log hash; non-trivial = at least 2 chains outstanding at a publication after more than SIZE submissions (descriptors recycled, free list permuted) or a completion consumed out of submission order",
+            rule: "seeded histories of add/complete/pop on VirtQueue (size, indirect, event-idx, access-platform, legacy layout, device policy drawn per run); distinct = distinct event-log hash; non-trivial = at least 2 chains outstanding at a publication after more than SIZE submissions (descriptors recycled, free list permuted) or a completion consumed out of submission order; batch `drivers` borrows the C08 driver x transport x feature grid and judges only chain/descriptor-ownership classes",
             batches: vec![
                 b("history", scen::queue::history, 6000, 30_000),
                 heavy("wrap", scen::queue::wrap_history, 16, 96),
@@ -91,7 +91,7 @@ pub fn spec(id: &str) -> Option<Spec> {
         "C04" => Spec {
             id: "C04",
             level: "exploration",
-            rule: "same histories; SimHal ledger invariants online (share once / unshare once, exact arguments, device address returned by share, no share on refusal, device accesses only live shares/DMA in permitted direction, data appears at consumption); non-trivial as C01",
+            rule: "same histories; SimHal ledger invariants online (share once / unshare once, exact arguments, device address returned by share, no share on refusal, device accesses only live shares/DMA in permitted direction, data appears at consumption); non-trivial as C01; batches `drivers_blk/sound/gpu` borrow the C14/C20 driver scenarios and judge only sharing-ledger classes plus share-leaked (no request buffer still shared after every blocking request completed and the driver was dropped)",
             batches: vec![
                 b("history", scen::queue::history, 6000, 30_000),
                 b("history_faulty", scen::queue::history_faulty, 3000, 20_000),
@@ -108,7 +108,7 @@ pub fn spec(id: &str) -> Option<Spec> {
         "C05" => Spec {
             id: "C05",
             level: "exploration",
-            rule: "histories with should_notify compared against vring_need_event / used.flags after batches of submissions, avail.flags / used_event checked from the device side, blocking helper under every device policy with busy-wait supervision; non-trivial = a blocking wait that actually spun, or a history that is non-trivial per C01",
+            rule: "histories with should_notify compared against vring_need_event / used.flags after batches of submissions, avail.flags / used_event checked from the device side, blocking helper under every device policy with busy-wait supervision; non-trivial = a blocking wait that actually spun, or a history that is non-trivial per C01; batch `drivers` borrows the C08 driver grid and judges only notification classes (used_event re-armed on request queues, lost wake-up at call boundaries)",
             batches: vec![
                 b("history", scen::queue::history, 4000, 30_000),
                 b("blocking", scen::queue::blocking_history, 4000, 80_000),
@@ -144,7 +144,7 @@ pub fn spec(id: &str) -> Option<Spec> {
         "C14" => Spec {
             id: "C14",
             level: "exploration",
-            rule: "seeded histories on VirtIOBlk (blocking read/write/flush/device_id with nothing outstanding; non-blocking reads/writes with several outstanding, completed in the order the device chose) over model / MMIO legacy+modern / PCI transports, sectors over the full u64 range, features drawn per run; honest and error-status batches separate; non-trivial = at least two non-blocking requests outstanding together",
+            rule: "seeded histories on VirtIOBlk (blocking read/write/flush/device_id with nothing outstanding; non-blocking reads/writes with several outstanding, completed in the order the device chose) over model / MMIO legacy+modern / PCI transports, sectors over the full u64 range, features drawn per run; honest and error-status batches separate; non-trivial = at least two non-blocking requests outstanding together; batch `capacity_cfg`: capacity read while the device switches configuration versions during construction (must equal one exposed version)",
             batches: vec![b("honest", scen::c14::honest, 6000, 500_000), b("faulty", scen::c14::faulty, 4000, 300_000), b("capacity_cfg", scen::c13::torn_blk, 2000, 100_000)],
             extras: vec![],
             assumptions: vec!["blocking calls are only issued with nothing else outstanding (documented precondition of add_notify_wait_pop)"],
@@ -189,7 +189,7 @@ pub fn spec(id: &str) -> Option<Spec> {
         "C20" => Spec {
             id: "C20",
             level: "exploration",
-            rule: "seeded operation sequences with arbitrary parameters on VirtIOGpu (resolution, framebuffer setup/teardown, flush, cursor, EDID with random 1024-byte blobs), VirtIOSound (info, set_params, prepare/start/stop/release, jack remap, blocking and non-blocking playback with completions in order within a stream), VirtIORng, VirtIORtc and VirtIO9p over model/MMIO/PCI transports; success batches and error-response batches are separate; non-trivial per batch: a framebuffer was set up / playback longer than the queue / entropy returned / a capability decoded / a 9P response returned",
+            rule: "seeded operation sequences with arbitrary parameters on VirtIOGpu (resolution, framebuffer setup/teardown, flush, cursor, EDID with random 1024-byte blobs), VirtIOSound (info, set_params, prepare/start/stop/release, jack remap, blocking and non-blocking playback with completions in order within a stream), VirtIORng, VirtIORtc and VirtIO9p over model/MMIO/PCI transports; success batches and error-response batches are separate; non-trivial per batch: a framebuffer was set up / playback longer than the queue / entropy returned / a capability decoded / a 9P response returned; batch `9p_tag_cfg`: mount tag read while the device switches configuration versions during construction",
             batches: vec![
                 b("gpu", scen::c20::gpu_run, 4000, 250_000),
                 b("gpu_faulty", scen::c20::gpu_faulty, 3000, 200_000),
